@@ -13,6 +13,9 @@ import (
 func main() { vkit.Main("C06", []string{"Gen.C06Util", "Model.Shapes", "Model.Index"}, run) }
 
 func run(c *vkit.Collector, rng *vkit.Rng, budget int) {
+	// vkit's streams for seeds k and k+1 are the same sequence shifted by one draw; re-seed from a
+	// mixed output so that different seeds give unrelated inputs (still a function of VERIF_SEED only)
+	rng = vkit.NewRng(rng.U64() ^ 0xC06C06C06)
 	runShapes(c, rng, budget)
 	runIndex(c, rng, budget)
 }
